@@ -132,6 +132,8 @@ def b_torad(ex, st, a, m, c):
 
 @builtin(r"f64::<impl f64>::(sin|cos|acos|exp|ln)$", "uninterpreted transcendental (axioms per obligation)")
 def b_trans(ex, st, a, m, c):
+    if T.is_t(a[0]) and a[0].op == "ite" and T._has_nf_leaf(a[0]):
+        return T._lift1(lambda x: b_trans(ex, st, [x], m, c), a[0])
     if not T.is_t(a[0]):
         import math
         try:
@@ -141,8 +143,21 @@ def b_trans(ex, st, a, m, c):
     return T.uf(m.group(1), [a[0]])
 
 
-@builtin(r"f64::<impl f64>::powf$", "uninterpreted powf")
+@builtin(r"f64::<impl f64>::powf$", "uninterpreted powf (concrete arguments are evaluated, IEEE special cases included)")
 def b_powf(ex, st, a, m, c):
+    for k in (0, 1):
+        if T.is_t(a[k]) and a[k].op == "ite" and T._has_nf_leaf(a[k]):
+            other = a[1 - k]
+            return T._lift1(lambda x: b_powf(ex, st, [x, other] if k == 0 else [other, x], m, c), a[k])
+    if not T.is_t(a[0]) and not T.is_t(a[1]):
+        import math
+        x, y = float(a[0]), float(a[1])
+        try:
+            return math.pow(x, y)
+        except OverflowError:
+            return float("inf")
+        except ValueError:
+            return float("nan")
     return T.uf("powf", [a[0], a[1]])
 
 
@@ -165,11 +180,13 @@ def b_pcmp(ex, st, a, m, c):
     return Enum("Option", alts)
 
 
-@builtin(r"^<u64 as Ord>::min$", "u64::min")
+@builtin(r"^<(u64|usize|i64|i32|u32) as Ord>::(min|max)$", "integer min/max")
 def b_umin(ex, st, a, m, c):
+    ismin = m.group(2) == "min"
     if T.is_t(a[0]) or T.is_t(a[1]):
-        return T.ite(T.icmp("ile", a[0], a[1]), a[0], a[1])
-    return min(a[0], a[1])
+        le = T.icmp("ile", a[0], a[1])
+        return T.ite(le, a[0], a[1]) if ismin else T.ite(le, a[1], a[0])
+    return min(a[0], a[1]) if ismin else max(a[0], a[1])
 
 
 # ------------------------------------------------------------------------------- Option
@@ -787,7 +804,47 @@ def b_collect(ex, st, a, m, c):
     return st, Agg("vec", out)
 
 
+# ------------------------------------------------------------------------------- per-arm event log
+
+LOG_SLOT = 900000
+
+
+def arm_log(st):
+    v = st.frames[0].locals.get(LOG_SLOT)
+    return v.fields if v is not None else []
+
+
+def arm_log_append(st, item):
+    st.frames[0].locals[LOG_SLOT] = Agg("log", list(arm_log(st)) + [item])
+
+
 # ------------------------------------------------------------------------------- rand / log
+
+@builtin(r"as rand::SeedableRng>::seed_from_u64$", "Pcg64Mcg::seed_from_u64: opaque generator (draws are fresh symbolic values, the parameter-index stream is supplied per run)")
+def b_seed(ex, st, a, m, c):
+    return Agg("struct:Rng", [a[0]])
+
+
+@builtin(r"^Uniform::<usize>::new::<usize, usize>$", "Uniform::new(lo, hi)")
+def b_uninew(ex, st, a, m, c):
+    return Agg("struct:Uniform", [a[0], a[1]])
+
+
+@builtin(r"^<Uniform<usize> as rand::distributions::Distribution<usize>>::sample::<", "Uniform::sample: next entry of the run's concrete index stream")
+def b_unisample(ex, st, a, m, c):
+    stream = getattr(ex, "index_stream", None)
+    if stream is None:
+        raise Unsupported("no index stream configured")
+    k = sum(1 for e in arm_log(st) if e[0] == "index")
+    if k >= len(stream):
+        raise Unsupported("index stream exhausted")
+    u = deref_arg(ex, st, a[0])
+    idx = stream[k]
+    arm_log_append(st, ("index", idx))
+    if not (u.fields[0] <= idx < u.fields[1]):
+        raise Unsupported("index stream entry outside the distribution's range")
+    return idx
+
 
 @builtin(r"as rand::Rng>::gen::<f64>$", "Rng::gen::<f64>() = fresh u with 0 <= u < 1")
 def b_gen(ex, st, a, m, c):
@@ -795,6 +852,7 @@ def b_gen(ex, st, a, m, c):
     st.pc.append(T.fcmp("fle", 0.0, u))
     st.pc.append(T.fcmp("flt", u, 1.0))
     ex.call_log.append(("gen", u))
+    arm_log_append(st, ("gen", u))
     return u
 
 
@@ -804,6 +862,7 @@ def b_genrange(ex, st, a, m, c):
     st.pc.append(T.fcmp("fle", a[1], d))
     st.pc.append(T.fcmp("flt", d, a[2]))
     ex.call_log.append(("gen_range", d))
+    arm_log_append(st, ("gen_range", d))
     return d
 
 
